@@ -33,3 +33,30 @@ axiom("forall(lambda a, b: CATS(OFSEQ(a), OFSEQ(b)) == OFSEQ(CAT(a, b)), a='SEQ'
 axiom("forall(lambda a: FIN(OFSEQ(a)) and SEQOF(OFSEQ(a)) == a and not FAILS(OFSEQ(a)), a='SEQ')")
 axiom("forall(lambda a, i: NTHS(OFSEQ(a), i) == NTH(a, i), a='SEQ')")
 axiom("forall(lambda a: implies(LEN(a) >= 1, not FIN(CYC(a))) and not FAILS(CYC(a)), a='SEQ')")
+
+# --- lists as sequences (facts of the (arr, n) representation) ---
+ufunc("LSEQR", ["ArrIntInt", "int"], "SEQ")
+ufunc("LSEQU", ["ArrIntU", "int"], "SEQ")
+ufunc("BOX", ["int"], "U")
+ufunc("UNBOX", ["U"], "int")
+ufunc("APP", ["U", "U"], "U")
+ufunc("WITQ", ["U", "U", "SEQ"], "U")
+ufunc("STR", ["U"], "U")
+ufunc("JDUMP", ["U"], "U")
+axiom("forall(lambda r: UNBOX(BOX(r)) == r)")
+axiom("forall(lambda a, n: implies(n >= 0, LEN(LSEQR(a, n)) == n), a='ArrIntInt')")
+axiom("forall(lambda a, n: implies(n >= 0, LEN(LSEQU(a, n)) == n), a='ArrIntU')")
+axiom("forall(lambda a, n, i: implies(0 <= i and i < n, NTH(LSEQR(a, n), i) == BOX(a[i])), a='ArrIntInt')")
+axiom("forall(lambda a, n, i: implies(0 <= i and i < n, NTH(LSEQU(a, n), i) == a[i]), a='ArrIntU')")
+axiom("forall(lambda a: LSEQR(a, 0) == EMPTY(), a='ArrIntInt')")
+axiom("forall(lambda a: LSEQU(a, 0) == EMPTY(), a='ArrIntU')")
+# TAKE of at least the whole sequence is the sequence; of nothing is empty
+axiom("forall(lambda s, k: implies(k >= LEN(s), TAKE(s, k) == s), s='SEQ')")
+axiom("forall(lambda s: TAKE(s, 0) == EMPTY(), s='SEQ')")
+axiom("forall(lambda s, k: implies(0 <= k and k <= LEN(s), LEN(TAKE(s, k)) == k), s='SEQ')")
+# mapping: extensionality in the function argument (witness form)
+axiom("forall(lambda f, g, s: MAPQ(f, s) == MAPQ(g, s) or APP(f, WITQ(f, g, s)) != APP(g, WITQ(f, g, s)), f='U', g='U', s='SEQ')")
+axiom("forall(lambda f, s: LEN(MAPQ(f, s)) == LEN(s), f='U', s='SEQ')")
+axiom("forall(lambda f, s: LEN(FILT(f, s)) <= LEN(s), f='U', s='SEQ')")
+assumption("A-JSON", "json.dumps(x, sort_keys=True) is a function of the value of x and injective on JSON values (equal canonical text <=> equal value)")
+axiom("forall(lambda a, b: implies(JDUMP(a) == JDUMP(b), a == b), a='U', b='U')")
